@@ -414,6 +414,7 @@ func init() {
 			case poolNondet:
 				if n > 0 {
 					k := m.choose(n+1, "pool-get")
+					m.poolChoices++
 					if k < n {
 						pick = n - 1 - k
 					}
